@@ -15,8 +15,11 @@ import (
 	"crypto/x509/pkix"
 	"encoding/hex"
 	"encoding/json"
+	"encoding/pem"
 	"fmt"
 	"math/big"
+	"os"
+	"path/filepath"
 	"runtime"
 	"sync"
 	"time"
@@ -236,6 +239,23 @@ func main() {
 		p.pool = x509.NewCertPool()
 		p.pool.AddCert(p.root)
 		p.attestor = yubiattest.NewAttestorWithCAPool(p.pool)
+		if r.Seed%2 == 1 {
+			// every other seed: the attestor is built from PEM files, as a deployment does (the second file holds an unrelated root)
+			if dir, derr := os.MkdirTemp("", "roots"); derr == nil {
+				defer os.RemoveAll(dir)
+				_, u2f, u2fDER := newCA("verif U2F root")
+				_ = u2f
+				piv, u2fp := filepath.Join(dir, "piv.pem"), filepath.Join(dir, "u2f.pem")
+				os.WriteFile(piv, pem.EncodeToMemory(&pem.Block{Type: "CERTIFICATE", Bytes: p.rootDER}), 0o600)
+				os.WriteFile(u2fp, pem.EncodeToMemory(&pem.Block{Type: "CERTIFICATE", Bytes: u2fDER}), 0o600)
+				if a, aerr := yubiattest.NewAttestor(piv, u2fp); aerr == nil {
+					p.attestor = a
+					r.Count("attestor built from PEM root files", 1)
+				} else {
+					r.Violation(r.CaseAlways("attestor", 0), "attestor-construction-from-files-fails", aerr.Error(), nil)
+				}
+			}
+		}
 		rootsHex := hex.EncodeToString(p.rootDER)
 
 		sizes := []int{1024, 1031, 2048}
